@@ -21,10 +21,14 @@ def prop(line, impl, model):
     if impl.startswith("!panic") or impl == "!died":
         return "implementation panicked/died: " + impl[:200]
     try:
+        if impl.startswith("!"):
+            return None
         if op == "ipc":
-            if impl.startswith("!"):
-                return None
             return prop_ipc(line, impl)
+        if op == "jwin":
+            return prop_jwin(line, impl)
+        if op == "jwrite":
+            return prop_jwrite(line, impl)
         if op == "bin":
             n, v = int(a[2]), int(impl)
             if not (n <= v < n + 8 and v % 8 == 0):
@@ -236,9 +240,101 @@ def gen_ipc(ctx):
     return lines, kinds
 
 
+# ---------------------------------------------------------------- journal
+def prop_jwin(line, impl):
+    a = line.split(" ")
+    frm, to = int(a[2]), int(a[3])
+    union, n = set(), 0
+    if a[4] != "-":
+        for c in a[4].split(";"):
+            s, e, ips = c.split(":")
+            if frm <= int(s) and int(e) <= to:
+                n += 1
+                if ips != "-":
+                    union |= set(ips.split("."))
+    d = kv(impl)
+    if int(d["chunks"]) != n:
+        return "window [%d,%d]: %s chunks included, %d lie inside the window" % (frm, to, d["chunks"], n)
+    if int(d["sum"]) != len(union):
+        return "window [%d,%d]: distinct count %s, the chunks inside the window hold %d distinct addresses" % (frm, to, d["sum"], len(union))
+    return None
+
+
+def prop_jwrite(line, impl):
+    a = line.split(" ")
+    ops = a[3].split(",") if a[3] != "-" else []
+    adds = [(int(o[1:].split(".")[0]), o[1:].split(".")[1]) for o in ops if o[0] == "a"]
+    last = max([int(o[1:].split(".")[0]) for o in ops] + [0])
+    d = kv(impl)
+    chunks = [tuple(map(int, c.split(":"))) for c in d["chunks"].split(";")] if d["chunks"] != "-" else []
+    prev = 0
+    for (s, e, card) in chunks:
+        if s != prev or e < s:
+            return "journal chunks do not tile the time line: chunk [%d,%d] follows instant %d" % (s, e, prev)
+        want = len(set(ip for (t, ip) in adds if s <= t < e))
+        if card != want:
+            return "chunk [%d,%d] holds %d distinct addresses; %d distinct addresses were recorded in that interval" % (s, e, card, want)
+        prev = e
+    if ops and ops[-1][0] == "f" and prev != last:
+        return "after the final flush at %d the journal ends at %d" % (last, prev)
+    if int(d["all"]) != len(set(ip for (t, ip) in adds if t < prev)):
+        return "whole-journal distinct count %s, recorded %d" % (d["all"], len(set(ip for (t, ip) in adds if t < prev)))
+    return None
+
+
+def gen_journal(ctx):
+    rng = ctx.rng
+    thorough = ctx.tier == "thorough"
+    lines, kinds = [], []
+    def add(l, k):
+        lines.append(AREA + " " + l); kinds.append(k)
+    def ips(maxn=4, uni=6):
+        n = rng.randrange(0, maxn + 1)
+        return ".".join(str(rng.randrange(1, uni + 1)) for _ in range(n)) or "-"
+    # every position of a chunk's two ends relative to the window ends (equality cases included)
+    for s in (8, 9, 10, 11, 12):
+        for e in (18, 19, 20, 21):
+            add("jwin 10 20 %d:%d:1.2.3" % (s, e), "jwin-boundary")
+            add("jwin 10 20 %d:%d:1.2;10:20:2.3;12:15:4" % (s, e), "jwin-boundary")
+    add("jwin 10 20 -", "jwin-empty")
+    add("jwin 10 10 10:10:5", "jwin-point")
+    add("jwin 20 10 10:20:5", "jwin-inverted")
+    for _ in range(250 if not thorough else 2500):
+        frm = rng.randrange(0, 30)
+        to = frm + rng.choice([0, 1, 5, 10, 30])
+        cs, t = [], rng.choice([0, frm, max(0, frm - 1), frm + 1])
+        for _ in range(rng.randrange(0, 7)):
+            e = rng.choice([t, t + 1, t + 3, to, to + 1, max(t, to - 1)])
+            e = max(e, t)
+            cs.append("%d:%d:%s" % (t, e, ips()))
+            t = e if rng.random() < 0.8 else e + rng.randrange(0, 3)
+        add("jwin %d %d %s" % (frm, to, ";".join(cs) or "-"), "jwin-random")
+    for _ in range(10 if not thorough else 60):
+        n = rng.choice([17, 40, 60])
+        base = rng.randrange(100, 60000)
+        add("jwin 0 100 0:50:%s;50:100:%s" % (".".join(str(base + i) for i in range(n)), ".".join(str(base + n // 2 + i) for i in range(n))), "jwin-larger-sets")
+    # the real writer on a tick grid
+    for _ in range(80 if not thorough else 600):
+        k = rng.choice([0, 1, 2, 3, 5])
+        t, ops = 0, []
+        for _ in range(rng.randrange(1, 14)):
+            t += rng.choice([1, 1, 2, k, k + 1, k + 2]) or 1
+            if rng.random() < 0.12:
+                ops.append("f%d" % t)
+            else:
+                ops.append("a%d.%d" % (t, rng.randrange(1, 6)))
+        ops.append("f%d" % (t + rng.choice([1, 2, k + 2])))
+        add("jwrite %d %s" % (k, ",".join(ops)), "jwrite-realtime")
+    return lines, kinds
+
+
 def key_of(line, impl, model):
     a = line.split(" ")
     op = a[1]
+    if op == "jwin":
+        return "journal-window"
+    if op == "jwrite":
+        return "journal-writer"
     if op == "ipc":
         try:
             return key_ipc(line, impl)
@@ -285,6 +381,11 @@ def run(ctx):
     os.environ["VERIF_C19_GEOIP_DIR"] = os.path.join(vlib.REPO, "broker")
     lines, kinds = gen_ipc(ctx)
     ctx.correspond(exe, lines, kinds, label="broker-ipc-metrics", prop=prop, key_of=key_of, impl_args=DRV_ARGS)
+    jexe = vlib.go_build("./zz_verif/c19journal")
+    ctx.trusted.append("HyperLogLog++ sketch (library): modelled as the exact set of masked values, checked on small sets only; "
+                       "HMAC-SHA3 mask modelled as an injective function")
+    lines, kinds = gen_journal(ctx)
+    ctx.correspond(jexe, lines, kinds, label="ip-journal", prop=prop, key_of=key_of)
 
 
 def replay(ctx, doc):
@@ -297,7 +398,10 @@ def replay(ctx, doc):
         if not case:
             continue
         m = vlib.run_model([case])[0]
-        rc, r, err = vlib.run_impl(exe, [case], args=DRV_ARGS)
+        if case.split(" ")[1] in ("jwin", "jwrite"):
+            rc, r, err = vlib.run_impl(vlib.go_build("./zz_verif/c19journal"), [case])
+        else:
+            rc, r, err = vlib.run_impl(exe, [case], args=DRV_ARGS)
         r = r[0] if r else "!died"
         p = prop(case, r, m)
         print("case: %s\n model: %s\n impl:  %s\n property: %s" % (case[:300], m[:300], r[:300], p or "holds"))
